@@ -571,7 +571,7 @@ func (rs *rootSet) walk(v ssa.Value, depth int) {
 			}
 		} else if rs.walkModuleCall(x, 0, depth+1) {
 			// result derives from arguments according to the callee's body (module helper)
-		} else if n := calleeName(&x.Call); n == "bytes.NewReader" || n == "bytes.NewBuffer" || n == "bytes.NewBufferString" {
+		} else if n := calleeName(&x.Call); n == "bytes.NewReader" || n == "bytes.NewBuffer" || n == "bytes.NewBufferString" || n == "fmt.Sprintf" {
 			// reader constructors: the stream is its argument
 			for _, a := range x.Call.Args {
 				rs.walk(a, depth+1)
@@ -664,11 +664,11 @@ func resultParams(fn *ssa.Function, i int) []int {
 }
 
 // walkModuleCall follows result #idx of a call to a small module helper into the arguments it
-// derives from (e.g. removeHash(h, list) returns a sub-slice of list). Only unexported helpers
-// without receivers are summarised this way.
+// derives from (e.g. removeHash(h, list) returns a sub-slice of list, repo.buildPath(h) a string
+// computed from h). Only unexported helpers are summarised this way.
 func (rs *rootSet) walkModuleCall(call *ssa.Call, idx int, depth int) bool {
 	callee := call.Call.StaticCallee()
-	if callee == nil || callee.Blocks == nil || callee.Signature.Recv() != nil || !inModule(pkgOf(callee)) {
+	if callee == nil || callee.Blocks == nil || !inModule(pkgOf(callee)) {
 		return false
 	}
 	if ast_IsExported(callee.Name()) {
@@ -835,9 +835,9 @@ type CallGraph struct {
 	P *Program
 	// Resolve, when set, overrides the resolution of interface invokes (return ok=false to fall back).
 	Resolve func(from *ssa.Function, cc *ssa.CallCommon) ([]*ssa.Function, bool)
-	impls map[*types.Func][]*ssa.Function // interface method -> module implementations
-	named []types.Type
-	out   map[*ssa.Function][]Edge
+	impls   map[*types.Func][]*ssa.Function // interface method -> module implementations
+	named   []types.Type
+	out     map[*ssa.Function][]Edge
 }
 
 func newCallGraph(P *Program) *CallGraph {
